@@ -292,3 +292,54 @@ register('C08', 'other',
                       'the per-call obligation is not claimed'],
          assumptions=['same assumed call-out contracts as C02',
                       'Context.on_timer_event does not raise (C07/C16)'])
+register('C05', 'proof',
+         'Detection: Context.conflicting()/conflicts() proved to be exactly "some / the processes of MANAGED applications '
+         'whose running_identifiers has more than one element" (C11 proves that flag equal to "listed on two distinct '
+         'instances"). Request sets: each conciliation strategy is proved, per iteration of its loop over the conflicts '
+         '(loop<K>_iter clauses on the ghost effect log), to emit exactly one Stopper call for that conflict and nothing '
+         'else: SENICIDE stop_process(p, running(p) minus one copy of minimal uptime, False), INFANTICIDE minus one copy of '
+         'maximal uptime, the identifier set never empty (an empty list would mean "everywhere"); STOP stop_process(p, '
+         'None) = every copy; RESTART default_restart_process(p); RUNNING_FAILURE stop_process(p, None) then '
+         'failure_handler.add_default_job(p); USER empty log. Only elements of `conflicts` are ever targeted. '
+         'conciliate_conflicts: the option selects exactly the strategy of the same name.',
+         not_decided=['closed loop "once those stops are reported no conflict remains and Supvisors returns to OPERATION" '
+                      '(composition with C10 / C11 over real events)',
+                      'whole-call statement for the loops is obtained from the per-iteration clauses by the meta-argument '
+                      '"a for-loop over a list visits each element once" (effects inside symbolic loops are not in the '
+                      'per-path log; the engine refuses effect predicates across such loops)',
+                      'ConciliationState._master_next decision is proved (jobs in progress => stay; no conflict => '
+                      'OPERATION; else one re-conciliation and stay) but goes through the ASSUMED contract of '
+                      'ConciliationState._master_enter (2 call-pre obligations undecided within budget); '
+                      'OperationState._master_next (needs _WorkingState._master_next, C06.3) not done',
+                      'Stopper.stop_process builds commands only for running_identifiers ∩ identifiers: owned by the '
+                      'Commander contracts (C09/C10), assumed here as an effect'],
+         assumptions=['Starter/Stopper entry points (stop_process, default_restart_process, stop_application, '
+                      'default_restart_application, Commander.next) are effect-only for the state read by C05/C06 contracts '
+                      '(contracts/assumed_c05.py)',
+                      'C11 invariant on the conflicting ProcessStatus (every listed instance has a report with an uptime)',
+                      'min/max ties over a set: any optimal element (CPython leaves set order unspecified)',
+                      'floats treated as reals (uptimes are only compared)'])
+register('C06', 'proof',
+         'Data-structure proof on the real source of RunningFailureHandler: the object invariant I06 (mutual exclusion of '
+         'the four job sets by precedence STOP_APPLICATION > RESTART_APPLICATION > RESTART_PROCESS > CONTINUE, applications '
+         'held are the registered ones) is proved preserved by add_stop_application_job, add_restart_application_job, '
+         'add_restart_process_job, add_continue_process_job, add_job and add_default_job from ANY state satisfying it, with '
+         'whole-view postconditions per method (which elements enter / leave which set; the in-place filter loops carry '
+         'sidecar invariants), "the failure is covered by the job the precedence designates or a stronger one", "no job is '
+         'forgotten", and the promotion RESTART_PROCESS -> RESTART_APPLICATION when the application is STOPPED and the '
+         'process is in its start sequence. get_start_sequenced_processes proved equal to its definition.',
+         not_decided=['trigger_* (deferral while the application has Starter/Stopper jobs, one Stopper call per job): '
+                      'contract of trigger_jobs is ASSUMED (only removes elements), not verified - left undone',
+                      '_WorkingState._master_next / on_process_state_event Master-only guards and '
+                      'Commander.on_instances_invalidation: not done here',
+                      'Context.invalidate_failed exactness (clause post_failed_exactly, expected refutation A11): carried '
+                      'by the contract of the C07 owner (contracts/c07.py, props include C06)',
+                      'RunningFailureHandler.abort: `self.x = set()` into a typed field is not modelled by the engine '
+                      '(false alarm), contract not registered',
+                      'start_sequence changes between two handler calls (ApplicationStatus.update_sequences) are outside '
+                      'the invariant: I06 speaks about the sequences at the time of each call',
+                      'end-to-end "running again on exactly one surviving instance" (composition with C04/C10/C11)'],
+         assumptions=['Context validity at the call sites: processes handed to the handler belong to an application stored '
+                      'under its own name in context.applications',
+                      'shape validity sequences_exist: start-sequence lists reachable on entry are allocated on entry '
+                      '(engine modelling artefact, true of every Python heap)'])
